@@ -20,6 +20,7 @@ type Verdict struct {
 	Model   string            // raw model text when sat
 	All     map[string]string // per solver raw first line
 	File    string
+	Retried bool // discharged only in the second, sequential pass
 }
 
 type solverDef struct {
